@@ -6,8 +6,9 @@ X64 = True
 RULE = ('models: generator forests of 1-6 links (free / world-attached roots, '
         '1-3 hinge/slide joints per link with arbitrary axes, anchors, body and '
         'geom frames, limits, passive terms, actuators) + a single-joint-at-'
-        'origin sub-workload; 8 states per model (q in [-2,2], unit root '
-        'quaternions, qd in [-1,1]). One event = one link compared at one '
+        'origin sub-workload and deep chains; 8 random states per model (q in '
+        '[-2,2], unit root quaternions, qd in [-1,1]) + the default pose at '
+        'rest + a random pose at rest. One event = one link compared at one '
         'state (pose; velocity where claimed). distinct = (topology, stack '
         'signature multiset); non-trivial = some non-free link has a '
         'non-identity body quaternion')
@@ -74,11 +75,14 @@ def run(job, mon):
     cls = [info[b] for b in order]
     bodies = [spec['bodies'][b] for b in order]
     fk = jax.jit(jax.vmap(lambda q, qd: kinematics.forward(sys_, q, qd)))
-    ns = 8
+    ns = 10
     qs = np.zeros((ns, mj.nq))
     qds = np.zeros((ns, mj.nv))
     for s in range(ns):
       qs[s], qds[s] = gen.rand_state(rng, mj)
+    # special points: default pose at rest, random pose at rest
+    qs[8], qds[8] = gen.special_state(mj, 'zero')
+    qs[9], qds[9] = gen.special_state(mj, 'zero_velocity', rng)
     x, xd = fk(jp.array(qs), jp.array(qds))
     xp, xr = np.asarray(x.pos), np.asarray(x.rot)
     xa, xv = np.asarray(xd.ang), np.asarray(xd.vel)
